@@ -141,6 +141,32 @@ def predicate_known(F, s, clustering_channels, truth, K):
     return len(set(maj)) < K
 
 
+KNOWN_FIT = 'fit-termination-scatter'
+
+
+def fit_scatter(fit, sel_rfi, sel_mef, law):
+    """Input-only probe of the second known finding: the same selected pairs, with the dimmest RFI moved by a few parts
+    in 1e9..1e6, are fitted again; if the conversion error over the span scatters by more than 1 % (absolute) between these
+    practically identical inputs, the optimiser's termination point is arbitrary for this bead set."""
+    m_, b_, _a = law
+    sr = np.asarray(sel_rfi, dtype=float)
+    sm = np.asarray(sel_mef, dtype=float)
+    if len(sr) < 3:
+        return False, []
+    x = np.geomspace(sr.min(), sr.max(), 60)
+    errs = []
+    for eps in (0.0, 1e-9, -1e-9, 1e-8, -1e-8, 1e-7, -1e-7, 1e-6, -1e-6):
+        r = sr.copy()
+        r[0] *= (1 + eps)
+        with np.errstate(all='ignore'):
+            o = core.attempt(fit, r, sm.copy())
+        if o.raised:
+            continue
+        y = np.asarray(o.value[0](x), dtype=float)
+        errs.append(float(np.max(np.abs(y / (np.exp(b_) * x ** m_) - 1))))
+    return (len(errs) >= 3 and max(errs) - min(errs) > 0.01), errs
+
+
 def run_once(F, s, bd, mef_values, chans, cl_ch, stat, seed, **kw):
     np.random.seed(seed)
     kw = dict(full_output=True, **kw) if 'full_output' not in kw else dict(kw)
@@ -275,8 +301,14 @@ def run(ctx):
                 y = np.asarray(out.transform_fxn(t, names[c] if rng.random() < 0.5 else [names[c]]))[:, c]
                 rel = np.abs(y / (np.exp(b_) * x ** m_) - 1)
                 ctx.counters['chk:accuracy'] += 1
-                good &= ctx.check(float(rel.max()) <= 0.10, 'conversion-off-by-more-than-10pct' + dtag, cid, channel=c,
-                                  worst=float(rel.max()), law=bd['laws'][c], params=out.fitting['beads_params'][c], **desc)
+                ftag, fkey = dtag, desc.get('known_key')
+                if float(rel.max()) > 0.10 and not dtag:
+                    sc_, errs_ = fit_scatter(fit, sel_rfi, sel_mef, bd['laws'][c])
+                    if sc_:
+                        ftag, fkey = '[known:%s]' % KNOWN_FIT, KNOWN_FIT
+                good &= ctx.check(float(rel.max()) <= 0.10, 'conversion-off-by-more-than-10pct' + ftag, cid, channel=c,
+                                  worst=float(rel.max()), law=bd['laws'][c], params=out.fitting['beads_params'][c],
+                                  **dict(desc, known_key=fkey))
                 key = 'worst_conversion_error_ppm(shard %d)' % ctx.shard
                 if not dtag:
                     ctx.notes[key] = max(ctx.notes.get(key, 0), int(rel.max() * 1e6))
@@ -347,16 +379,26 @@ def run(ctx):
             with np.errstate(all='ignore'):
                 o3 = run_once(F, sp, bd, mv_arg, chans_arg, cl_ch, stat, seed)
             ok = not o3.raised
+            why = [] if ok else ['raised: ' + core.exc_str(o3.exc)[:120]]
+            scatter_only = []
             if ok:
                 l3 = np.asarray(o3.value.clustering['labels'])
                 # same partition modulo the permutation (label names may differ)
                 pairs = set(zip(labels[perm].tolist(), l3.tolist()))
                 ok = len(pairs) == K
+                if not ok:
+                    why.append('partition differs (%d label pairs for %d populations)' % (len(pairs), K))
                 tol = 1e-5 if use_mean else 0
                 for c in range(C):
                     a, b = np.asarray(out.statistic['values'][c]), np.asarray(o3.value.statistic['values'][c])
-                    ok = ok and a.shape == b.shape and bool(np.all(np.abs(a - b) <= tol * np.abs(a)))
-                    ok = ok and np.array_equal(np.asarray(out.selection['mef'][c]), np.asarray(o3.value.selection['mef'][c]))
+                    ok1 = a.shape == b.shape and bool(np.all(np.abs(a - b) <= tol * np.abs(a)))
+                    ok2 = np.array_equal(np.asarray(out.selection['mef'][c]), np.asarray(o3.value.selection['mef'][c]))
+                    if not ok1:
+                        why.append('statistics of channel %d differ: %r vs %r' % (c, a.tolist(), b.tolist()))
+                    if not ok2:
+                        why.append('selected MEF values of channel %d differ: %r vs %r' % (c, np.asarray(out.selection['mef'][c]).tolist(),
+                                                                                          np.asarray(o3.value.selection['mef'][c]).tolist()))
+                    ok = ok and ok1 and ok2
                     # the statement requires the permuted run to meet the same ground truth (within 10% of the true
                     # conversion), not to reproduce the first run's optimiser output digit for digit (the fitted
                     # autofluorescence is ill-conditioned when the true one is ~0)
@@ -365,8 +407,21 @@ def run(ctx):
                         m_, b_, _a = bd['laws'][c]
                         x = np.geomspace(sr.min(), sr.max(), 60)
                         y = np.asarray(o3.value.fitting['std_crv'][c](x), dtype=float)
-                        ok = ok and float(np.max(np.abs(y / (np.exp(b_) * x ** m_) - 1))) <= 0.10
-            ctx.check(ok, 'event-order-dependence' + tag, cid, **desc)
+                        e3 = float(np.max(np.abs(y / (np.exp(b_) * x ** m_) - 1)))
+                        okc = e3 <= 0.10
+                        if not okc:
+                            why.append('conversion of channel %d off by %.4f after the permutation' % (c, e3))
+                            sc_, errs_ = fit_scatter(fit, sr, np.asarray(o3.value.selection['mef'][c], dtype=float), bd['laws'][c])
+                            if sc_:
+                                scatter_only.append(c)
+                            else:
+                                scatter_only.append(None)
+                        ok = ok and okc
+            otag, okey = tag, desc.get('known_key')
+            if not ok and not tag and scatter_only and all(c_ is not None for c_ in scatter_only) and len(scatter_only) == len(why):
+                # the ONLY discrepancy is the accuracy of channels whose fit is arbitrary at the 1e-9 level (second known finding)
+                otag, okey = '[known:%s]' % KNOWN_FIT, KNOWN_FIT
+            ctx.check(ok, 'event-order-dependence' + otag, cid, why=why[:4], **dict(desc, known_key=okey))
         ctx.case_done(class_key=klass, nontrivial=True, distinct_key=core.digest(bd['X']),
                       sample={k: desc[k] for k in ('container', 'K', 'C', 'sizes', 'blank', 'sat_hi', 'sat_lo', 'clustering_channels', 'statistic', 'laws')}
                       if cid[1] < 2 else None)
